@@ -579,6 +579,7 @@ class SimBus:
         self.send_fault = None        # callable -> True: sendto() fails with ENOBUFS
         self.delay_for = None         # callable(no, frame) -> seconds to hold this frame back
         self.socket_drop = None       # callable(no, frame) -> True: lost between XDP and sockets
+        self.mtu = 1500               # what the interface reports (jumbo frames: 9000)
 
     def add_terminal(self, term):
         self.terminals.append(term)
